@@ -9,7 +9,7 @@ def build(chk):
     chk.assumptions_used.update(["A-REAL", "A-NP", "A-MATH"])
     chk.math_lemmas.append("Gauss-Markov: a linear map R satisfying the normal equations R C_oo = C_no (on the retained subspace) minimises E|s_on - R s_off|^2 over all linear maps")
     tomography.obligations(chk)
-    chk.bounded_native("method wrapper follows rebuilds of the covariance matrix (no stale reconstructor)", "method", "one 3-WFS system, two conditionings, one rebuild", "aotools/turbulence/slopecovariance.py:CovarianceMatrix.make_tomographic_reconstructor")
+    chk.bounded_native("method wrapper: follows rebuilds of the covariance matrix (no stale reconstructor); end to end through the builder the reconstructor satisfies the normal equations on the retained subspace", "method", "one 3-WFS system with a rebuild; 5 built systems (guide star in the target direction at another altitude / mask layout / wavelength, true duplicate, no coincidence) x 2 conditionings, tolerance 2e-3 max|C|", "aotools/turbulence/slopecovariance.py:CovarianceMatrix.make_tomographic_reconstructor")
     chk.not_decided.append("'holds to rounding' for well-conditioned matrices (conditioning / rounding analysis)")
     chk.not_decided.append("end-to-end clause (all geometries through the covariance builder) is C01 composed with this contract")
 
